@@ -5,12 +5,18 @@
 // (b) after an edit, a command ran only if its target is new, its BUILD entry changed, one of its source files
 // changed, the CLEAN outputs of one of its dependencies changed (clean reference builds of successive trees),
 // or plz-out had been deleted. The whole history (both builds of every step) is replayed in Model/Engine.v.
+// (c) the converse for plain files: a genrule one of whose source files - its own, or those of a filegroup it reads -
+// has other content than at the previous build must run (class changed-source-consumer-not-rerun).
+// streams.go adds three targeted streams (hard-linked filegroup outputs under edits in place, concurrent double
+// invocations, dict outs under repeated no-op builds) with their own cases for Model/C03Ext.v; every case is wrapped
+// in C03Ext.case (Eng = an engine history).
 package main
 
 import (
 	"fmt"
 	"os"
 	"strings"
+	"sync"
 	"time"
 
 	"verifharness/e2e"
@@ -19,7 +25,7 @@ import (
 
 func main() {
 	lib.Main("C03", func(c *lib.Ctx) {
-		c.Model("From PlzV Require Import Model.Engine.", "Engine.case", "Engine.check")
+		c.Model("From PlzV Require Import Model.Engine Model.C03Ext.", "C03Ext.case", "C03Ext.check")
 		c.Rule("generated repositories (1-2 packages, 2-6 targets: genrules concat/const/copydir/listnames and, in every other history, output_dirs targets; filegroups, text_files) with edit histories " +
 			"(content edits, rewrites with identical content, renames inside output directories, srcs/outs/cmd changes, comments, unused files, added/removed targets, " +
 			"rm -rf plz-out, going back to an earlier tree); every tree is built twice in a row by the real plz; the executed commands come from an action log " +
@@ -29,6 +35,38 @@ func main() {
 		n := c.Scale(9, 300)
 		steps := c.Scale(4, 7)
 		corpusWitness(c, base)
+		// the targeted streams run next to the generated histories
+		var wg sync.WaitGroup
+		nlink := c.Scale(2, 24)
+		links := make([]*linkHist, nlink)
+		for i := range links {
+			wg.Add(1)
+			go func(i int, r *lib.Rng) {
+				defer wg.Done()
+				links[i] = runLink(r, fmt.Sprintf("%s/link%d", base, i), c.Scale(5, 9))
+			}(i, c.Rng.Fork())
+		}
+		nconc := c.Scale(2, 6)
+		concs := make([][]concRound, nconc)
+		for i := range concs {
+			wg.Add(1)
+			go func(i int, r *lib.Rng) {
+				defer wg.Done()
+				concs[i] = runConc(r, fmt.Sprintf("%s/conc%d", base, i), 2+i%2)
+			}(i, c.Rng.Fork())
+		}
+		nnamed := c.Scale(2, 8)
+		nameds := make([]*namedHist, nnamed)
+		for i := range nameds {
+			wg.Add(1)
+			go func(i int, r *lib.Rng) {
+				defer wg.Done()
+				nameds[i] = runNamed(r, fmt.Sprintf("%s/named%d", base, i), 4+2*(i%2), c.Scale(6, 12))
+			}(i, c.Rng.Fork())
+		}
+		if os.Getenv("C03_STREAMS_ONLY") != "" { // development aid: only the targeted streams
+			n = 0
+		}
 		all := e2e.EngRunHistories(c.Rng, base, n, 8, func(i int) e2e.EngOpts {
 			return e2e.EngOpts{MaxPkgs: 2, MaxTargets: 6, Steps: steps, CleanRef: true, Rebuild: true, PWipe: 6, PRevert: 12, PNoop: 4, DirHeavy: i%3 == 0, OutDirs: i%2 == 1}
 		})
@@ -66,14 +104,49 @@ func main() {
 							c.Hist("reason", why)
 						}
 					}
+					// the other direction, for plain files only: a genrule one of whose source FILES - its own, or those of a
+					// filegroup it reads - has other content than at the previous build must run
+					for _, l := range st.Spec.Labels() {
+						if why := mustRun(prev, st, l); why != "" && !has(st.Executed, l) {
+							c.Fail("changed-source-consumer-not-rerun", fmt.Sprintf("%s did not run after %v although %s", l, st.Edit, why), histJSON(i, h, k))
+						}
+					}
 				}
 				prev = st
 			}
-			c.Case(e2e.EngCaseTerm(h), histJSON(i, h, len(h)-1), e2e.EngKey(h), changed >= 2)
+			c.Case(engTerm(h), histJSON(i, h, len(h)-1), e2e.EngKey(h), changed >= 2)
+		}
+		wg.Wait()
+		for i, h := range links {
+			if h.TimedOut {
+				c.Hist("edit", "timed-out")
+				continue
+			}
+			linkOracle(c, 3000+i, h)
+			js := map[string]any{"stream": "link", "history": 3000 + i, "events": h.Events, "use_ran": h.UseRan, "ctl_ran": h.CtlRan}
+			c.Case(linkTerm(h), js, fmt.Sprint("link", h.Events), len(h.Events) >= 6)
+			c.Case(engTerm(h.Steps), histJSON(3000+i, h.Steps, len(h.Steps)-1), "link-eng"+e2e.EngKey(h.Steps), true)
+		}
+		for i, rounds := range concs {
+			concOracle(c, 3100+i, rounds)
+		}
+		for i, h := range nameds {
+			if h.TimedOut {
+				c.Hist("edit", "timed-out")
+				continue
+			}
+			namedOracle(c, 3200+i, h)
+			js := map[string]any{"stream": "named", "history": 3200 + i, "groups": h.Groups, "kinds": h.Kinds, "reruns": h.Reruns}
+			c.Case(namedTerm(h), js, fmt.Sprint("named", h.Groups), len(h.Groups) >= 2)
+			c.Case(engTerm(h.Steps), histJSON(3200+i, h.Steps, len(h.Steps)-1), "named-eng"+e2e.EngKey(h.Steps), true)
 		}
 		// targeted shapes (harness/e2e/c01_shapes.go): names reached through labels, the temporary directory after a failed
 		// build, filegroups of directories, tools rebuilt to byte-identical outputs (cut-off through tools = [...])
-		shapes := e2e.EngRunShapes(c.Rng.Fork(), base+"/shapes", c.Scale(1, 30), c.Scale(3, 6), 8)
+		nshapes := c.Scale(1, 30)
+		if os.Getenv("C03_STREAMS_ONLY") != "" {
+			nshapes = 0
+		}
+		shapes := e2e.EngRunShapes(c.Rng.Fork(), base+"/shapes", nshapes, c.Scale(3, 6), 8)
 		for ki, kind := range e2e.ShapeKinds {
 			for hi, h := range shapes[kind] {
 				id := 2000 + 100*ki + hi
@@ -105,7 +178,7 @@ func main() {
 					}
 				}
 				if e2e.ShapeModelled(kind) {
-					c.Case(e2e.EngCaseTerm(h), histJSON(id, h, len(h)-1), e2e.EngKey(h), changed >= 2)
+					c.Case(engTerm(h), histJSON(id, h, len(h)-1), e2e.EngKey(h), changed >= 2)
 				}
 			}
 		}
@@ -180,6 +253,48 @@ func allowed(prev, st *e2e.EngStep, label string) string {
 	}
 	// outputs that an earlier, different definition of another target had removed or replaced cannot occur here:
 	// output names are unique per target. What is left is an output missing in plz-out before the build.
+	return ""
+}
+
+func engTerm(h []e2e.EngStep) string { return lib.App("Eng", e2e.EngCaseTerm(h)) }
+
+// mustRun: label is a genrule of both trees and a plain source file it reads - directly, or through a filegroup of plain
+// files - has other content than in the previous tree: says which, else "".
+func mustRun(prev, st *e2e.EngStep, label string) string {
+	t, u := st.Spec.Target(label), prev.Spec.Target(label)
+	if t == nil || u == nil || t.Kind != "genrule" {
+		return ""
+	}
+	files := func(s *e2e.Spec, t *e2e.Target, pkg string) map[string]string {
+		out := map[string]string{}
+		add := func(pkg string, srcs []string) {
+			for _, x := range srcs {
+				if !strings.HasPrefix(x, "//") && !strings.HasPrefix(x, ":") {
+					if c, ok := s.Pkgs[pkg].Files[x]; ok {
+						out[pkg+"/"+x] = c
+					}
+				}
+			}
+		}
+		add(pkg, t.Srcs)
+		for _, x := range t.Srcs {
+			if !strings.HasPrefix(x, "//") {
+				continue
+			}
+			if d := s.Target(x); d != nil && d.Kind == "filegroup" {
+				dp, _ := e2e.SplitLabel(x)
+				add(dp, d.Srcs)
+			}
+		}
+		return out
+	}
+	pkg, _ := e2e.SplitLabel(label)
+	a, b := files(prev.Spec, u, pkg), files(st.Spec, t, pkg)
+	for _, f := range lib.SortedKeys(b) {
+		if old, ok := a[f]; ok && old != b[f] {
+			return fmt.Sprintf("the content of %s changed (%q -> %q)", f, old, b[f])
+		}
+	}
 	return ""
 }
 
